@@ -131,11 +131,11 @@ def free_axes(e, acc=None):
 VALUE_SCHEMES = ('distinct', 'distinct', 'small', 'special')
 
 
-def gen_pattern(rng, types, *, default=0.0, scheme='distinct', start_id=1, share=0.35, dtype='float', pool=None):
+def gen_pattern(rng, types, *, default=0.0, scheme='distinct', start_id=1, share=0.35, dtype='float', pool=None, p_whole=0.4):
     """a random well-typed pattern structure over the typed shape `types` (values not encoded); with `pool`, the
     physical axes are drawn from (and added to) that typed pool, so that several tensors can SHARE physical axes"""
     pool = pool if pool is not None else Pool(rng, share, start_id)
-    vs = [gen_axis(rng, ty, pool) for ty in types]
+    vs = [gen_axis(rng, ty, pool, p_whole) for ty in types]
     fa = {}
     for e in vs:
         free_axes(e, fa)
